@@ -113,3 +113,10 @@ Definition chk_abs (cwd p out : str) : bool := eqb_str (fp_abs cwd p) out.
 Definition mk4 (x : str * str * str * str) : mname := let '(h, n, m, t) := x in MkM h n m t.
 Definition chk_existing (existing : list (str * str * str * str)) (q r : str * str * str * str) : bool :=
   m_eqb (get_existing_name (map mk4 existing) (mk4 q)) (mk4 r).
+
+(** two name strings through both parsers: validity, and Name.EqualFold (exact in the model when the first name is valid) *)
+Definition chk_foldpair (s1 s2 : str) (v1 v2 ef nv1 nv2 nfq1 nfq2 : bool) : bool :=
+  let m1 := m_parse s1 in let m2 := m_parse s2 in let n1 := n_parse s1 in let n2 := n_parse s2 in
+  Bool.eqb (m_is_valid m1) v1 && Bool.eqb (m_is_valid m2) v2 &&
+  (if v1 then Bool.eqb (m_equal_fold m1 m2) ef else true) &&
+  Bool.eqb (n_is_valid n1) nv1 && Bool.eqb (n_is_valid n2) nv2 && Bool.eqb (n_is_fq n1) nfq1 && Bool.eqb (n_is_fq n2) nfq2.
